@@ -9,7 +9,7 @@ PERSISTED = ["PublishAtLeastOnce", "PublishExactlyOnce", "PublishAtLeastOnceReta
 
 # which scenario families serve which property, and which clause prefixes a property owns
 FAMILIES = {
-    "C01": ["out", "restart", "wrap"], "C02": ["restart", "restart", "wrap"], "C03": ["out", "restart"], "C04": ["in", "inrestart", "inbig"],
+    "C01": ["out", "restart", "wrap"], "C02": ["restart", "restart", "wrap"], "C03": ["out", "restart"], "C04": ["in", "in", "inrestart", "inrestart", "inbig"],
     "C05": ["out", "restart", "wrap"], "C07": ["in"], "C10": ["connect", "req", "out", "in", "in"], "C11": ["req", "close", "connect", "hostile"],
     "C12": ["close"], "C13": ["hostile", "hostile", "in"], "C16": ["damage", "damagein"], "C17": ["out", "restart", "req", "wrap"],
     "C18": ["connect", "connect", "out"], "C14": ["req", "close", "out", "connect"], "C08": ["req", "out"],
